@@ -95,7 +95,18 @@ pub enum SOp {
     /// Re-entrant call of entrypoint `reenter<script>` of this very instance.
     InvokeSelf { script: usize },
     /// Call of another (simulated) contract or a transfer / query; the chain answers as scripted.
-    InvokeOther { tag: u32, resp: Response },
+    InvokeOther {
+        tag:   u32,
+        resp:  Response,
+        /// extra zero bytes appended to the well-formed payload (most operations then must trap)
+        #[serde(default)]
+        extra: u32,
+    },
+    /// The environment getters, hash and signature functions (see `ENV_FUNCS`); `len`/`off` are used by
+    /// the hash functions (message length), the policy getter (length, offset).
+    Env { func: u8, len: u32, off: u32 },
+    /// `upgrade(module_ref)`: always interrupts; the chain answers as scripted.
+    Upgrade { resp: Response },
     /// A state operation with a pointer/length pair outside linear memory (must trap).
     OutOfBounds { func: u8, ptr: u32, len: u32 },
     /// Recurse `n` frames down, perform a transfer (interrupt) at the bottom, then recurse `m`
@@ -140,6 +151,10 @@ pub struct VPlan {
     pub cuts:     Vec<u32>,
     #[serde(default)]
     pub shrunk:   bool,
+    /// Energy focus only: the entrypoint ends with `memory.grow(k)` and writes no result dump, so the
+    /// host's charge for the new pages is the very last charge of the transaction.
+    #[serde(default)]
+    pub tail_grow: Option<u32>,
 }
 
 // ---------------------------------------------------------------------------
@@ -187,7 +202,7 @@ const ZERO_BASE: u32 = 0xD000; // 12 KiB that no script touches: source of write
 const MAX_RETURN_VALUE_P4: usize = 16384;
 
 // host function table: (name, params, result)
-const HOSTS: [(&str, &[Ty], Option<Ty>); 19] = [
+const HOSTS: [(&str, &[Ty], Option<Ty>); 33] = [
     ("state_lookup_entry", &[Ty::I32, Ty::I32], Some(Ty::I64)),
     ("state_create_entry", &[Ty::I32, Ty::I32], Some(Ty::I64)),
     ("state_delete_entry", &[Ty::I32, Ty::I32], Some(Ty::I32)),
@@ -207,7 +222,41 @@ const HOSTS: [(&str, &[Ty], Option<Ty>); 19] = [
     ("get_receive_self_balance", &[], Some(Ty::I64)),
     ("invoke", &[Ty::I32, Ty::I32, Ty::I32], Some(Ty::I64)),
     ("write_output", &[Ty::I32, Ty::I32, Ty::I32], Some(Ty::I32)),
+    ("get_slot_time", &[], Some(Ty::I64)),                                              // 19
+    ("get_receive_invoker", &[Ty::I32], None),                                          // 20
+    ("get_receive_self_address", &[Ty::I32], None),                                     // 21
+    ("get_receive_sender", &[Ty::I32], None),                                           // 22
+    ("get_receive_owner", &[Ty::I32], None),                                            // 23
+    ("get_receive_entrypoint_size", &[], Some(Ty::I32)),                                // 24
+    ("get_receive_entrypoint", &[Ty::I32], None),                                       // 25
+    ("hash_sha2_256", &[Ty::I32, Ty::I32, Ty::I32], None),                              // 26
+    ("hash_sha3_256", &[Ty::I32, Ty::I32, Ty::I32], None),                              // 27
+    ("hash_keccak_256", &[Ty::I32, Ty::I32, Ty::I32], None),                            // 28
+    ("verify_ed25519_signature", &[Ty::I32, Ty::I32, Ty::I32, Ty::I32], Some(Ty::I32)), // 29
+    ("verify_ecdsa_secp256k1_signature", &[Ty::I32, Ty::I32, Ty::I32], Some(Ty::I32)),  // 30
+    ("get_policy_section", &[Ty::I32, Ty::I32, Ty::I32], Some(Ty::I32)),                // 31
+    ("upgrade", &[Ty::I32], Some(Ty::I64)),                                             // 32
 ];
+
+/// Number of `SOp::Env` functions (host indices 19..=31).
+const ENV_FUNCS: u8 = 13;
+/// The sender policy bytes every simulated invocation carries.
+fn policy_bytes() -> Vec<u8> { (100..140u8).collect() }
+/// Where the message of hash / signature calls comes from: the 64 pattern bytes at 0x100, or zeros.
+fn msg_src(len: u32) -> u32 {
+    if len <= 64 {
+        0x100
+    } else {
+        ZERO_BASE
+    }
+}
+fn msg_bytes(len: u32) -> Vec<u8> {
+    if len <= 64 {
+        (0..len as u8).collect()
+    } else {
+        vec![0u8; len as usize]
+    }
+}
 
 struct DataAlloc {
     next:  u32,
@@ -252,7 +301,13 @@ fn self_call_payload(script: usize) -> Vec<u8> {
     p
 }
 
-fn other_payload(tag: u32) -> Vec<u8> {
+fn other_payload(tag: u32, extra: u32) -> Vec<u8> {
+    let mut p = other_payload0(tag);
+    p.extend(std::iter::repeat(0u8).take(extra as usize));
+    p
+}
+
+fn other_payload0(tag: u32) -> Vec<u8> {
     match tag {
         0 => {
             // transfer: account + amount
@@ -271,9 +326,29 @@ fn other_payload(tag: u32) -> Vec<u8> {
             p.extend_from_slice(&0u64.to_le_bytes());
             p
         }
-        2 => vec![7u8; 32],       // query account balance
-        3 => vec![0u8; 16],       // query contract balance
-        _ => Vec::new(),          // query exchange rates
+        2 => vec![7u8; 32], // query account balance
+        3 => {
+            // query contract balance
+            let mut p = Vec::new();
+            p.extend_from_slice(&9u64.to_le_bytes());
+            p.extend_from_slice(&1u64.to_le_bytes());
+            p
+        }
+        5 => {
+            // check account signature: address ‖ opaque payload
+            let mut p = vec![7u8; 32];
+            p.extend_from_slice(&[0xab; 10]);
+            p
+        }
+        6 => vec![7u8; 32], // query account keys
+        7 | 8 => {
+            // module reference / contract name of a contract
+            let mut p = Vec::new();
+            p.extend_from_slice(&9u64.to_le_bytes());
+            p.extend_from_slice(&1u64.to_le_bytes());
+            p
+        }
+        _ => Vec::new(), // query exchange rates (4); unknown tags
     }
 }
 
@@ -335,20 +410,45 @@ pub fn emit_module(plan: &VPlan) -> Vec<u8> {
                     let p = self_call_payload(*script);
                     (17, vec![i32c(1), i32c(da.put(&p)), i32c(p.len() as u32)])
                 }
-                SOp::InvokeOther { tag, .. } => {
-                    let p = other_payload(*tag);
+                SOp::InvokeOther { tag, extra, .. } => {
+                    let p = other_payload(*tag, *extra);
                     (17, vec![i32c(*tag), i32c(da.put(&p)), i32c(p.len() as u32)])
                 }
+                SOp::Upgrade { .. } => (32, vec![i32c(0x100)]),
+                SOp::Env { func, len, off } => match func % ENV_FUNCS {
+                    0 => (19, vec![]),
+                    1 => (20, vec![i32c(rb)]),
+                    2 => (21, vec![i32c(rb)]),
+                    3 => (22, vec![i32c(rb)]),
+                    4 => (23, vec![i32c(rb)]),
+                    5 => (24, vec![]),
+                    6 => (25, vec![i32c(rb)]),
+                    7 => (26, vec![i32c(msg_src(*len)), i32c(*len), i32c(rb)]),
+                    8 => (27, vec![i32c(msg_src(*len)), i32c(*len), i32c(rb)]),
+                    9 => (28, vec![i32c(msg_src(*len)), i32c(*len), i32c(rb)]),
+                    10 => (29, vec![i32c(0x100), i32c(0x100), i32c(msg_src(*len)), i32c(*len)]),
+                    11 => (30, vec![i32c(0x100), i32c(0x100), i32c(0x100)]),
+                    _ => (31, vec![i32c(rb), i32c((*len).min(64)), i32c(*off)]),
+                },
                 SOp::DeepCall { .. } => unreachable!(),
-                SOp::OutOfBounds { func, ptr, len } => match func % 6 {
+                SOp::OutOfBounds { func, ptr, len } => match func % 10 {
                     0 => (0, vec![i32c(*ptr), i32c(*len)]),
                     1 => (1, vec![i32c(*ptr), i32c(*len)]),
                     2 => (2, vec![i32c(*ptr), i32c(*len)]),
                     3 => (4, vec![i32c(*ptr), i32c(*len)]),
                     4 => (15, vec![i32c(*ptr), i32c(*len)]),
-                    _ => (18, vec![i32c(*ptr), i32c(*len), i32c(0)]),
+                    5 => (18, vec![i32c(*ptr), i32c(*len), i32c(0)]),
+                    6 => (26, vec![i32c(*ptr), i32c(*len), i32c(rb)]),
+                    7 => (31, vec![i32c(*ptr), i32c(*len), i32c(0)]),
+                    8 => (20, vec![i32c(*ptr)]),
+                    _ => (28, vec![i32c(0x100), i32c(8), i32c(*ptr)]),
                 },
             };
+            if HOSTS[h as usize].2.is_none() {
+                // no result: the slot stays 0
+                body.push(Stmt::Host(h, args));
+                continue;
+            }
             let call = Expr::Host(h, args);
             let wide = HOSTS[h as usize].2 == Some(Ty::I64);
             body.push(if wide {
@@ -370,13 +470,17 @@ pub fn emit_module(plan: &VPlan) -> Vec<u8> {
             }
         }
         let n = script.ops.len().min(MAX_OPS) as u32;
-        // return value = (what the script wrote itself) ‖ results ‖ read buffers
-        body.push(Stmt::Drop(Expr::Host(18, vec![i32c(RES_BASE), i32c(8 * n), Expr::LocalGet(1)])));
-        body.push(Stmt::Drop(Expr::Host(18, vec![
-            i32c(RB_BASE),
-            i32c(64 * n),
-            Expr::Bin(0x6a, Box::new(Expr::LocalGet(1)), Box::new(i32c(8 * n))),
-        ])));
+        if let (0, Some(k)) = (si, plan.tail_grow) {
+            body.push(Stmt::Drop(Expr::MemoryGrow(Box::new(i32c(k)))));
+        } else {
+            // return value = (what the script wrote itself) ‖ results ‖ read buffers
+            body.push(Stmt::Drop(Expr::Host(18, vec![i32c(RES_BASE), i32c(8 * n), Expr::LocalGet(1)])));
+            body.push(Stmt::Drop(Expr::Host(18, vec![
+                i32c(RB_BASE),
+                i32c(64 * n),
+                Expr::Bin(0x6a, Box::new(Expr::LocalGet(1)), Box::new(i32c(8 * n))),
+            ])));
+        }
         funcs.push(Func {
             sig:    Sig {
                 params: vec![Ty::I64],
@@ -456,7 +560,7 @@ pub fn emit_module(plan: &VPlan) -> Vec<u8> {
         imports,
         funcs,
         exports,
-        memory: Some((1, Some(1))),
+        memory: Some((1, Some(1 + plan.tail_grow.unwrap_or(0)))),
         globals: Vec::new(),
         table: Vec::new(),
         data: datas,
@@ -506,6 +610,8 @@ struct MCtx<'a> {
     limit_logs: bool,
     max_param: usize,
     queries: bool,
+    sig_checks: bool,
+    inspection: bool,
     /// the simulated memory image of the data region (for log events and writes)
     mem:     Vec<u8>,
     /// Sum of the scheduled charges of the host calls reached so far (frozen copy of the
@@ -959,21 +1065,105 @@ fn model_run(plan: &VPlan, si: usize, st: &mut MState, ctx: &mut MCtx) -> MOutco
                     }
                 }
             }
-            SOp::InvokeOther { tag, resp } => {
+            SOp::InvokeOther { tag, resp, extra } => {
                 ctx.min_energy += 500;
-                if *tag >= 2 && !ctx.queries {
+                // which operations exist in which protocol version
+                let available = match *tag {
+                    0 | 1 => true,
+                    2..=4 => ctx.queries,
+                    5 | 6 => ctx.sig_checks,
+                    7 | 8 => ctx.inspection,
+                    _ => false,
+                };
+                if !available {
                     return MOutcome::Trap;
                 }
-                if *tag > 4 {
+                // payload sizes are exact, except for a call (trailing bytes ignored) and a
+                // signature check (address followed by an opaque payload)
+                if *extra > 0 && !matches!(*tag, 1 | 5) {
                     return MOutcome::Trap;
                 }
                 if *tag == 1 && 3 > ctx.max_param {
                     return MOutcome::Trap;
                 }
+                if *tag == 5 {
+                    ctx.min_energy += 10 + 42 + *extra as u64;
+                }
                 if *tag <= 1 {
                     ctx.logs = 0;
                 }
                 model_response(resp, ctx)
+            }
+            SOp::Upgrade { resp } => {
+                ctx.min_energy += 500;
+                ctx.logs = 0;
+                model_response(resp, ctx)
+            }
+            SOp::Env { func, len, off } => {
+                let entry = if si == 0 { "run".to_string() } else { format!("reenter{}", si) };
+                let digest_cost = |base: u64, per: u64| base + per * *len as u64;
+                match func % ENV_FUNCS {
+                    0 => 12345,
+                    1 => {
+                        rbufs[i][..32].copy_from_slice(&[1u8; 32]);
+                        0
+                    }
+                    2 => 0, // contract <0,0>: sixteen zero bytes
+                    3 => {
+                        rbufs[i][0] = 0; // tag: account
+                        rbufs[i][1..33].copy_from_slice(&[1u8; 32]);
+                        0
+                    }
+                    4 => {
+                        rbufs[i][..32].copy_from_slice(&[2u8; 32]);
+                        0
+                    }
+                    5 => entry.len() as u64,
+                    6 => {
+                        rbufs[i][..entry.len()].copy_from_slice(entry.as_bytes());
+                        0
+                    }
+                    7 => {
+                        use sha2::Digest;
+                        ctx.min_energy += digest_cost(500, 7);
+                        rbufs[i][..32].copy_from_slice(&sha2::Sha256::digest(&msg_bytes(*len)));
+                        0
+                    }
+                    8 => {
+                        use sha3::Digest;
+                        ctx.min_energy += digest_cost(500, 5);
+                        rbufs[i][..32].copy_from_slice(&sha3::Sha3_256::digest(&msg_bytes(*len)));
+                        0
+                    }
+                    9 => {
+                        use sha3::Digest;
+                        ctx.min_energy += digest_cost(500, 5);
+                        rbufs[i][..32].copy_from_slice(&sha3::Keccak256::digest(&msg_bytes(*len)));
+                        0
+                    }
+                    10 => {
+                        // the pattern bytes are not a valid signature for any key
+                        ctx.min_energy += digest_cost(100_000, 100);
+                        0
+                    }
+                    11 => {
+                        ctx.min_energy += 100_000;
+                        0
+                    }
+                    _ => {
+                        let l = (*len).min(64) as usize;
+                        ctx.min_energy += 10 + l as u64;
+                        let p = policy_bytes();
+                        let off = *off as usize;
+                        let end = off.saturating_add(l).min(p.len());
+                        if off > end {
+                            return MOutcome::Trap;
+                        }
+                        let c = &p[off..end];
+                        rbufs[i][..c.len()].copy_from_slice(c);
+                        c.len() as u64
+                    }
+                }
             }
             SOp::DeepCall { n, m, resp } => {
                 ctx.min_energy += 500;
@@ -988,8 +1178,12 @@ fn model_run(plan: &VPlan, si: usize, st: &mut MState, ctx: &mut MCtx) -> MOutco
                 }
                 7
             }
-            SOp::OutOfBounds { ptr, len, .. } => {
-                if *ptr as u64 + *len as u64 > MEM {
+            SOp::OutOfBounds { func, ptr, len } => {
+                let need = match func % 10 {
+                    8 | 9 => 32,
+                    _ => *len as u64,
+                };
+                if *ptr as u64 + need > MEM {
                     return MOutcome::Trap;
                 }
                 // (minimised plans may move the pair back inside memory: then the result is not modelled)
@@ -1049,6 +1243,40 @@ struct Chain<'a> {
     interrupts: u32,
     reentries:  u32,
     rollbacks:  u32,
+    /// first interrupt whose kind or content does not match the operation that caused it
+    kind_mismatch: Option<String>,
+}
+
+/// The interrupt handed to the chain must be the operation the contract asked for, with the
+/// payload it passed (tags as in the host interface; 100 = upgrade).
+fn interrupt_mismatch(i: &v1::Interrupt, tag: u32, extra: u32) -> Option<String> {
+    let acct = AccountAddress([7u8; 32]);
+    let other = ContractAddress::new(9, 1);
+    let ok = match (tag, i) {
+        (0, v1::Interrupt::Transfer { to, amount }) => *to == acct && amount.micro_ccd == 5,
+        (1, v1::Interrupt::Call { address, parameter, name, amount }) => {
+            *address == ContractAddress::new(9, 0) && parameter[..] == [1, 2, 3] && name.to_string() == "foo" && amount.micro_ccd == 0
+        }
+        (2, v1::Interrupt::QueryAccountBalance { address }) => *address == acct,
+        (3, v1::Interrupt::QueryContractBalance { address }) => *address == other,
+        (4, v1::Interrupt::QueryExchangeRates) => true,
+        (5, v1::Interrupt::CheckAccountSignature { address, payload }) => {
+            *address == acct && payload.len() == 10 + extra as usize && payload[..10] == [0xab; 10] && payload[10..].iter().all(|b| *b == 0)
+        }
+        (6, v1::Interrupt::QueryAccountKeys { address }) => *address == acct,
+        (7, v1::Interrupt::QueryContractModuleReference { address }) => *address == other,
+        (8, v1::Interrupt::QueryContractName { address }) => *address == other,
+        (100, v1::Interrupt::Upgrade { module_ref }) => {
+            let b: &[u8] = module_ref.as_ref();
+            b.iter().enumerate().all(|(k, x)| *x == k as u8)
+        }
+        _ => false,
+    };
+    if ok {
+        None
+    } else {
+        Some(format!("operation with tag {} (100 = upgrade) reached the chain as {:?}", tag, i))
+    }
 }
 
 fn ctx_for(entry: &str, balance: u64) -> ReceiveContext<Vec<u8>> {
@@ -1062,7 +1290,7 @@ fn ctx_for(entry: &str, balance: u64) -> ReceiveContext<Vec<u8>> {
             self_balance:    Amount::from_micro_ccd(balance),
             sender:          Address::Account(AccountAddress([1u8; 32])),
             owner:           AccountAddress([2u8; 32]),
-            sender_policies: Vec::new(),
+            sender_policies: policy_bytes(),
         },
         entrypoint: OwnedEntrypointName::new_unchecked(entry.to_string()),
     }
@@ -1188,16 +1416,26 @@ impl Chain<'_> {
                                 },
                             }
                         }
-                        _ => {
+                        other => {
                             // scripted answer: the k-th "other" invoke of this script in program order
                             let scripted = self.plan.scripts[si]
                                 .ops
                                 .iter()
                                 .filter_map(|o| match o {
-                                    SOp::InvokeOther { resp, .. } | SOp::DeepCall { resp, .. } => Some(resp.clone()),
+                                    SOp::InvokeOther { resp, tag, extra } => Some((resp.clone(), *tag, *extra)),
+                                    SOp::DeepCall { resp, .. } => Some((resp.clone(), 0, 0)),
+                                    SOp::Upgrade { resp } => Some((resp.clone(), 100, 0)),
                                     _ => None,
                                 })
                                 .nth(other_k);
+                            if let Some((_, tag, extra)) = &scripted {
+                                if let Some(m) = interrupt_mismatch(&other, *tag, *extra) {
+                                    if self.kind_mismatch.is_none() {
+                                        self.kind_mismatch = Some(m);
+                                    }
+                                }
+                            }
+                            let scripted = scripted.map(|x| x.0);
                             other_k += 1;
                             match scripted {
                                 Some(Response::Success { data, has_data, new_balance }) => {
@@ -1385,7 +1623,7 @@ fn g_script(rng: &mut Rng, focus: VFocus, nscripts: usize, pool: &mut Vec<Vec<u8
                         script: if rng.chance(1, 10) { rng.usize_below(nscripts + 1) } else { rng.urange(1, nscripts - 1) },
                     }
                 } else {
-                    let tag_ = *rng.pick(&[0u32, 1, 1, 2, 3, 4, 9]);
+                    let tag_ = *rng.pick(&[0u32, 0, 1, 1, 1, 2, 3, 4, 5, 6, 7, 8, 9, 10]);
                     let resp = if rng.coin() {
                         Response::Success {
                             data:        {
@@ -1398,10 +1636,23 @@ fn g_script(rng: &mut Rng, focus: VFocus, nscripts: usize, pool: &mut Vec<Vec<u8
                     } else {
                         Response::Failure(rng.below(10) as u8)
                     };
-                    SOp::InvokeOther { tag: tag_, resp }
+                    if focus == VFocus::Host && rng.chance(1, 8) {
+                        SOp::Upgrade { resp }
+                    } else {
+                        SOp::InvokeOther {
+                            tag: tag_,
+                            resp,
+                            extra: if rng.chance(1, 6) { *rng.pick(&[1u32, 8, 100]) } else { 0 },
+                        }
+                    }
                 }
             }
-            4 => match rng.below(7) {
+            4 => match rng.below(9) {
+                7 | 8 => SOp::Env {
+                    func: rng.below(ENV_FUNCS as u64) as u8,
+                    len:  *rng.pick(&[0u32, 1, 31, 32, 64, 65, 136, 1000]),
+                    off:  *rng.pick(&[0u32, 0, 1, 39, 40, 41, u32::MAX]),
+                },
                 0 => SOp::ParamSize { i: rng.below(4) as u32 },
                 1 | 2 => SOp::ParamSection {
                     i:   rng.below(4) as u32,
@@ -1426,20 +1677,23 @@ fn g_script(rng: &mut Rng, focus: VFocus, nscripts: usize, pool: &mut Vec<Vec<u8
                 _ => SOp::SelfBalance,
             },
             _ => {
-                let len = *rng.pick(&[1u32, 7, 37, 64]);
+                let func = rng.below(10) as u8;
+                let len = match func {
+                    // log_event looks at the pointer whatever the length is; hashes check before charging
+                    4 | 6 => *rng.pick(&[1u32, 7, 64, 512, 513, 600, 4097, 70000]),
+                    8 | 9 => 32,
+                    _ => *rng.pick(&[1u32, 7, 37, 64]),
+                };
                 // the pair always reaches beyond the single 64 KiB page, by one byte or by a lot
                 let ptr = match rng.below(5) {
+                    0 | 2 if len > 65536 => 0,
                     0 => 65536 - len + 1,
                     1 => 65536,
                     2 => 65536 - len + rng.range(1, len as u64) as u32,
                     3 => u32::MAX,
                     _ => 0x8000_0000,
                 };
-                SOp::OutOfBounds {
-                    func: rng.below(6) as u8,
-                    ptr,
-                    len,
-                }
+                SOp::OutOfBounds { func, ptr, len }
             }
         };
         ops.push(op);
@@ -1484,6 +1738,7 @@ pub fn generate(rng: &mut Rng, _tier: Tier, focus: VFocus) -> VPlan {
         energy: 50_000_000,
         cuts: (0..rng.urange(1, 5)).map(|_| rng.range(0, 999) as u32).collect(),
         shrunk: false,
+        tail_grow: if focus == VFocus::Energy && rng.chance(1, 4) { Some(rng.range(1, 2) as u32) } else { None },
     }
 }
 
@@ -1509,6 +1764,7 @@ struct RunOut {
     reentries: u32,
     rollbacks: u32,
     origin_intact: bool,
+    kind_mismatch: Option<String>,
 }
 
 fn run_once(plan: &VPlan, art: &Art, energy: u64) -> RunOut {
@@ -1520,6 +1776,7 @@ fn run_once(plan: &VPlan, art: &Art, energy: u64) -> RunOut {
         interrupts: 0,
         reentries: 0,
         rollbacks: 0,
+        kind_mismatch: None,
     };
     let mut ps = PersistentState::from_iterator(plan.initial.iter().map(|(k, v)| (&k[..], v.clone())));
     if plan.from_disk {
@@ -1565,6 +1822,7 @@ fn run_once(plan: &VPlan, art: &Art, energy: u64) -> RunOut {
         reentries: chain.reentries,
         rollbacks: chain.rollbacks,
         origin_intact: got == want && got2 == want,
+        kind_mismatch: chain.kind_mismatch,
     }
 }
 
@@ -1582,7 +1840,7 @@ fn viol(oracle: &str, sig: impl Into<String>, detail: String) -> Option<Violatio
 fn slot_in_focus(focus: VFocus, op: &SOp) -> bool {
     match focus {
         VFocus::Host | VFocus::Resume | VFocus::Energy => true,
-        VFocus::Handles => !matches!(op, SOp::ParamSize { .. } | SOp::ParamSection { .. } | SOp::LogEvent { .. } | SOp::WriteOutput { .. } | SOp::SelfBalance | SOp::OutOfBounds { .. }),
+        VFocus::Handles => !matches!(op, SOp::ParamSize { .. } | SOp::ParamSection { .. } | SOp::LogEvent { .. } | SOp::WriteOutput { .. } | SOp::SelfBalance | SOp::OutOfBounds { .. } | SOp::Env { .. }),
     }
 }
 
@@ -1608,6 +1866,8 @@ fn op_name(op: &SOp) -> &'static str {
         SOp::SelfBalance => "get_receive_self_balance",
         SOp::InvokeSelf { .. } => "invoke(self)",
         SOp::InvokeOther { .. } => "invoke",
+        SOp::Upgrade { .. } => "upgrade",
+        SOp::Env { func, .. } => HOSTS[19 + (*func % ENV_FUNCS) as usize].0,
         SOp::OutOfBounds { .. } => "out-of-bounds",
         SOp::DeepCall { .. } => "deep-call",
     }
@@ -1669,9 +1929,12 @@ pub fn execute(plan: &VPlan, rec: &mut Recorder) -> Option<Violation> {
             return Some(Violation::new("harness", "harness/module-rejected", format!("script module rejected: {:#}", e), 0));
         }
     };
-    simcore::alloc::set_dirty_limit(2 * 65536);
+    simcore::alloc::set_dirty_limit((2 + plan.tail_grow.unwrap_or(0) as usize) * 65536);
     rec.op();
     rec.log_bytes(&bytes);
+    if plan.tail_grow.is_some() {
+        rec.probe("memory_growth_is_last_charge");
+    }
     let r0 = run_once(plan, &art, plan.energy);
     rec.tick(plan.energy - r0.remaining);
     rec.log_str(&format!("{:?}", r0.outcome));
@@ -1695,6 +1958,11 @@ pub fn execute(plan: &VPlan, rec: &mut Recorder) -> Option<Violation> {
             return None;
         }
         _ => {}
+    }
+    if plan.focus == VFocus::Host {
+        if let Some(m) = &r0.kind_mismatch {
+            return viol("visible-result", "host/interrupt-kind", m.clone());
+        }
     }
     if !r0.origin_intact {
         return viol(
@@ -1723,6 +1991,8 @@ pub fn execute(plan: &VPlan, rec: &mut Recorder) -> Option<Violation> {
             limit_logs: params.limit_logs_and_return_values,
             max_param: params.max_parameter_size,
             queries: params.support_queries,
+            sig_checks: params.support_account_signature_checks,
+            inspection: params.support_contract_inspection_queries,
             mem: Vec::new(),
             min_energy: 0,
             rv: Vec::new(),
@@ -1902,7 +2172,8 @@ pub fn execute(plan: &VPlan, rec: &mut Recorder) -> Option<Violation> {
                 );
             }
         }
-        for c in &plan.cuts {
+        // permille cuts, and always the budget that is short by exactly one
+        for c in plan.cuts.iter().chain(std::iter::once(&1000u32)) {
             if used == 0 {
                 break;
             }
